@@ -172,7 +172,7 @@ class _MVN:
         for i, r in enumerate(rows):
             out[i] = ctx.apply_uf('%s%d' % (name, d), list(r) + list(mean) + covl)
             if name == 'MVNPDF':
-                ctx._fact(out[i].t >= 0)
+                ctx._fact(out[i].t > 0)   # a normal density is positive everywhere (underflow is outside the claim)
         out = out.reshape(x.shape[:-1])
         return _squeeze_output(out)
 
